@@ -99,10 +99,24 @@ func (d *verifSDriver) next() *verifSDTx {
 		fee := big.NewInt(10000) // 0.0001
 		spec := d.w.Spec(verifgen.Units(new(big.Int).Sub(total, fee)), 2)
 		submit := d.submits[0]
-		tx := verifgen.WithdrawalClaim(d.w.Custodian, submit, ins, []verifgen.OutSpec{spec}, verifgen.Units(fee), fmt.Sprint(d.n))
+		change := []verifgen.OutSpec{spec}
+		kind := "withdrawal-claim"
+		if d.rng.Intn(4) == 0 {
+			// hostile shape: a further output of a special type hidden behind the change output (validation
+			// is expected to refuse it; if it does not, the ledger monitors see the consequences)
+			x := big.NewInt(int64(1 + d.rng.Intn(5000)))
+			spec = d.w.Spec(verifgen.Units(new(big.Int).Sub(new(big.Int).Sub(total, fee), x)), 2)
+			extra := verifgen.OutSpec{Type: common.OutputTypeWithdrawalSubmit, Amount: verifgen.Units(x), Withdrawal: &common.WithdrawalData{Address: "hidden", Tag: "t"}}
+			if d.rng.Intn(2) == 0 {
+				extra = verifgen.OutSpec{Type: common.OutputTypeWithdrawalClaim, Amount: verifgen.Units(x)}
+			}
+			change = []verifgen.OutSpec{spec, extra}
+			kind = "withdrawal-claim-with-hidden-special-output"
+		}
+		tx := verifgen.WithdrawalClaim(d.w.Custodian, submit, ins, change, verifgen.Units(fee), fmt.Sprint(d.n))
 		d.w.Remove(ins)
-		specs := []verifgen.OutSpec{{Type: common.OutputTypeWithdrawalClaim}, spec}
-		return &verifSDTx{Kind: "withdrawal-claim", Tx: tx, Specs: specs, apply: func() {
+		specs := append([]verifgen.OutSpec{{Type: common.OutputTypeWithdrawalClaim}}, change...)
+		return &verifSDTx{Kind: kind, Tx: tx, Specs: specs, apply: func() {
 			for i, h := range d.submits { // several candidates may have been built for the same submission
 				if h == submit {
 					d.submits = append(d.submits[:i:i], d.submits[i+1:]...)
